@@ -28,6 +28,9 @@ RX = {
     "path1": _HEAD + (_HOST % b"+") + b"(p:[^\\|]+\\|){1})",
     "path2": _HEAD + (_HOST % b"+") + b"(p:[^\\|]+\\|){2})",
     "path3": _HEAD + (_HOST % b"+") + b"(p:[^\\|]+\\|){3})",
+    # a rule of the same shape whose outcome depends on the re.I flag the API compiles
+    # every rule with (lower-case classes, mixed-case pages)
+    "lowerpath1": _HEAD + (_HOST % b"+") + b"(p:[a-z0-9_]+\\|){1})",
 }
 NOMATCH = b"$^"  # never matches a non-empty LRU
 
@@ -107,7 +110,7 @@ def rand_web_lru(r):
     hosts = [r.choice([b"h:com|", b"h:fr|"])] + [
         b"h:" + r.choice([b"a", b"b", b"www"]) + b"|" for _ in range(r.randint(0, 2))
     ]
-    path = [b"p:" + r.choice([b"x", b"y", b"z"]) + b"|" for _ in range(r.randint(0, 3))]
+    path = [b"p:" + r.choice([b"x", b"y", b"z", b"Yz", b"X"]) + b"|" for _ in range(r.randint(0, 3))]
     return sch + port + b"".join(hosts) + b"".join(path)
 
 
